@@ -712,8 +712,10 @@ class tensor:
         rprod = 1 if rdims.size == 0 else np.prod(np.array(tshape)[rdims])
         cprod = 1 if cdims.size == 0 else np.prod(np.array(tshape)[cdims])
         # Not self.permute: the no-copy path relies on a view when no data has to move
+        # A tenmat holds numbers: an indicator (boolean) tensor is matricised as 0/1 integers
+        source = self.data.astype(np.int64) if self.data.dtype == np.bool_ else self.data
         data = np.reshape(
-            to_memory_order(np.transpose(self.data, dims), self.order),
+            to_memory_order(np.transpose(source, dims), self.order),
             (rprod, cprod),
             order=self.order,
         )
